@@ -77,12 +77,14 @@ def _mono_mul(m1, m2):
 
 
 ONE_M = frozenset()
+_ONE_DEN = {ONE_M: Fraction(1)}   # shared, never mutated
+_F0 = Fraction(0)
 
 
 def _poly_add(p, q, k=1):
     r = dict(p)
     for m, c in q.items():
-        c = r.get(m, 0) + k * c
+        c = r.get(m, _F0) + k * c
         if c:
             r[m] = c
         else:
@@ -95,7 +97,7 @@ def _poly_mul(p, q):
     for m1, c1 in p.items():
         for m2, c2 in q.items():
             m = _mono_mul(m1, m2)
-            c = r.get(m, 0) + c1 * c2
+            c = r.get(m, _F0) + c1 * c2
             if c:
                 r[m] = c
             else:
@@ -124,9 +126,14 @@ class RF:
 
     def __init__(self, num, den=None):
         self.num = num
-        self.den = den if den is not None else {ONE_M: Fraction(1)}
         self._fp = None
+        if den is None or den == _ONE_DEN:
+            self.den = _ONE_DEN
+            return
+        self.den = den
         self._norm()
+        if self.den == _ONE_DEN:
+            self.den = _ONE_DEN
 
     # ---- construction helpers
     @staticmethod
@@ -142,7 +149,7 @@ class RF:
         if not self.den:
             raise Unsupported("division by a term that is identically zero")
         if not self.num:
-            self.den = {ONE_M: Fraction(1)}
+            self.den = _ONE_DEN
             return
         if len(self.den) == 1:
             (m, c), = self.den.items()
@@ -206,6 +213,10 @@ class RF:
     # ---- arithmetic
     def __add__(self, o):
         o = lift(o)
+        if self.den is _ONE_DEN and o.den is _ONE_DEN:
+            r = RF.__new__(RF)
+            r.num, r.den, r._fp = _poly_add(self.num, o.num), _ONE_DEN, None
+            return r
         if self.den == o.den:
             return RF(_poly_add(self.num, o.num), dict(self.den))
         return RF(_poly_add(_poly_mul(self.num, o.den), _poly_mul(o.num, self.den)), _poly_mul(self.den, o.den))
@@ -213,7 +224,7 @@ class RF:
     __radd__ = __add__
 
     def __neg__(self):
-        return RF({m: -c for m, c in self.num.items()}, dict(self.den))
+        return RF({m: -c for m, c in self.num.items()}, self.den if self.den is _ONE_DEN else dict(self.den))
 
     def __sub__(self, o):
         return self + (-lift(o))
@@ -223,6 +234,10 @@ class RF:
 
     def __mul__(self, o):
         o = lift(o)
+        if self.den is _ONE_DEN and o.den is _ONE_DEN:
+            r = RF.__new__(RF)
+            r.num, r.den, r._fp = _poly_mul(self.num, o.num), _ONE_DEN, None
+            return r
         return RF(_poly_mul(self.num, o.num), _poly_mul(self.den, o.den))
 
     __rmul__ = __mul__
@@ -252,6 +267,12 @@ class RF:
                 o = lift(o)
             except Exception:
                 return NotImplemented
+        if self is o:
+            return True
+        if self.fp() != o.fp():
+            return False  # equal functions have equal fingerprints
+        if self.den == o.den:
+            return self.num == o.num
         return _poly_add(_poly_mul(self.num, o.den), _poly_mul(o.num, self.den), -1) == {}
 
     def __ne__(self, o):
@@ -285,6 +306,9 @@ class RF:
             return tot
 
         if not mp and ctx is None:
+            return self
+        ats = self.atoms()
+        if not any(a in mp for a in ats) and not any(a[0] in ("ABS", "SGN", "MIN", "MAX", "F", "NNF") for a in ats):
             return self
         return poly(self.num) / poly(self.den)
 
@@ -455,6 +479,9 @@ def show_atom(a):
     if tag == "m":
         return "|%s|" % a[1]
     if tag in ("nn", "fr"):
+        if not isinstance(a[1], str):
+            from .summ import show_value
+            return show_value(a[1])
         return str(a[1])
     if tag == "ABS":
         return "|%s|" % show(a[1])
